@@ -211,8 +211,9 @@ def main(argv=None):
         'wall_s': round(time.time() - t0, 2),
         'violations': int(sum(failcount[m] for m in violations)),
     }
-    (VERIF / 'evidence').mkdir(exist_ok=True)
-    (VERIF / 'evidence' / f'{pid}.json').write_text(
+    evdir = Path(os.environ.get('VERIF_EVIDENCE_DIR') or VERIF / 'evidence')   # override: seeded-change trials only
+    evdir.mkdir(parents=True, exist_ok=True)
+    (evdir / f'{pid}.json').write_text(
         json.dumps(ev, indent=1, sort_keys=False) + '\n')
 
     for mech in sorted(known_hit):
